@@ -221,6 +221,7 @@ package optics
 //@ func ForProduct1
 //@   props C01 C02
 //@   opt overflow=off
+//@   opt safetyprops=C02
 //@   opt lemmas=nth_take,len_take
 //@   ghost all := flatten(fieldsof(pureof(rtypeof(T))), 0, [])
 //@   panics_when true
@@ -232,6 +233,7 @@ package optics
 //@ func ForSpectrum1
 //@   props C01 C02
 //@   opt overflow=off
+//@   opt safetyprops=C02
 //@   opt lemmas=nth_take,len_take
 //@   ghost all := flatten(fieldsof(pureof(rtypeof(T))), 0, [])
 //@   panics_when true
@@ -242,6 +244,7 @@ package optics
 //@ func ForProduct2
 //@   props C01 C02
 //@   opt overflow=off
+//@   opt safetyprops=C02
 //@   opt lemmas=nth_take,len_take
 //@   ghost all := flatten(fieldsof(pureof(rtypeof(T))), 0, [])
 //@   panics_when true
@@ -257,6 +260,7 @@ package optics
 //@ func ForSpectrum2
 //@   props C01 C02
 //@   opt overflow=off
+//@   opt safetyprops=C02
 //@   opt lemmas=nth_take,len_take
 //@   ghost all := flatten(fieldsof(pureof(rtypeof(T))), 0, [])
 //@   panics_when true
@@ -270,6 +274,7 @@ package optics
 //@ func ForProduct3
 //@   props C01 C02
 //@   opt overflow=off
+//@   opt safetyprops=C02
 //@   opt lemmas=nth_take,len_take
 //@   ghost all := flatten(fieldsof(pureof(rtypeof(T))), 0, [])
 //@   panics_when true
@@ -289,6 +294,7 @@ package optics
 //@ func ForSpectrum3
 //@   props C01 C02
 //@   opt overflow=off
+//@   opt safetyprops=C02
 //@   opt lemmas=nth_take,len_take
 //@   ghost all := flatten(fieldsof(pureof(rtypeof(T))), 0, [])
 //@   panics_when true
@@ -305,6 +311,7 @@ package optics
 //@ func ForProduct4
 //@   props C01 C02
 //@   opt overflow=off
+//@   opt safetyprops=C02
 //@   opt lemmas=nth_take,len_take
 //@   ghost all := flatten(fieldsof(pureof(rtypeof(T))), 0, [])
 //@   panics_when true
@@ -328,6 +335,7 @@ package optics
 //@ func ForSpectrum4
 //@   props C01 C02
 //@   opt overflow=off
+//@   opt safetyprops=C02
 //@   opt lemmas=nth_take,len_take
 //@   ghost all := flatten(fieldsof(pureof(rtypeof(T))), 0, [])
 //@   panics_when true
@@ -347,6 +355,7 @@ package optics
 //@ func ForProduct5
 //@   props C01 C02
 //@   opt overflow=off
+//@   opt safetyprops=C02
 //@   opt lemmas=nth_take,len_take
 //@   ghost all := flatten(fieldsof(pureof(rtypeof(T))), 0, [])
 //@   panics_when true
@@ -374,6 +383,7 @@ package optics
 //@ func ForSpectrum5
 //@   props C01 C02
 //@   opt overflow=off
+//@   opt safetyprops=C02
 //@   opt lemmas=nth_take,len_take
 //@   ghost all := flatten(fieldsof(pureof(rtypeof(T))), 0, [])
 //@   panics_when true
@@ -396,6 +406,7 @@ package optics
 //@ func ForProduct6
 //@   props C01 C02
 //@   opt overflow=off
+//@   opt safetyprops=C02
 //@   opt lemmas=nth_take,len_take
 //@   ghost all := flatten(fieldsof(pureof(rtypeof(T))), 0, [])
 //@   panics_when true
@@ -427,6 +438,7 @@ package optics
 //@ func ForSpectrum6
 //@   props C01 C02
 //@   opt overflow=off
+//@   opt safetyprops=C02
 //@   opt lemmas=nth_take,len_take
 //@   ghost all := flatten(fieldsof(pureof(rtypeof(T))), 0, [])
 //@   panics_when true
@@ -452,6 +464,7 @@ package optics
 //@ func ForProduct7
 //@   props C01 C02
 //@   opt overflow=off
+//@   opt safetyprops=C02
 //@   opt lemmas=nth_take,len_take
 //@   ghost all := flatten(fieldsof(pureof(rtypeof(T))), 0, [])
 //@   panics_when true
@@ -487,6 +500,7 @@ package optics
 //@ func ForSpectrum7
 //@   props C01 C02
 //@   opt overflow=off
+//@   opt safetyprops=C02
 //@   opt lemmas=nth_take,len_take
 //@   ghost all := flatten(fieldsof(pureof(rtypeof(T))), 0, [])
 //@   panics_when true
@@ -515,6 +529,7 @@ package optics
 //@ func ForProduct8
 //@   props C01 C02
 //@   opt overflow=off
+//@   opt safetyprops=C02
 //@   opt lemmas=nth_take,len_take
 //@   ghost all := flatten(fieldsof(pureof(rtypeof(T))), 0, [])
 //@   panics_when true
@@ -554,6 +569,7 @@ package optics
 //@ func ForSpectrum8
 //@   props C01 C02
 //@   opt overflow=off
+//@   opt safetyprops=C02
 //@   opt lemmas=nth_take,len_take
 //@   ghost all := flatten(fieldsof(pureof(rtypeof(T))), 0, [])
 //@   panics_when true
@@ -585,6 +601,7 @@ package optics
 //@ func ForProduct9
 //@   props C01 C02
 //@   opt overflow=off
+//@   opt safetyprops=C02
 //@   opt lemmas=nth_take,len_take
 //@   ghost all := flatten(fieldsof(pureof(rtypeof(T))), 0, [])
 //@   panics_when true
@@ -628,6 +645,7 @@ package optics
 //@ func ForSpectrum9
 //@   props C01 C02
 //@   opt overflow=off
+//@   opt safetyprops=C02
 //@   opt lemmas=nth_take,len_take
 //@   ghost all := flatten(fieldsof(pureof(rtypeof(T))), 0, [])
 //@   panics_when true
